@@ -34,7 +34,24 @@ TARGETS = [
     ('cardutil/pinblock.py', '_get_tsp', {'card_number': 'str', 'key_table_index': 'int', 'pin': 'str'}, 'str'),
     ('cardutil/mciipm.py', 'block_1014_check', {'sample_data': 'bytes'}, 'bool'),
     ('cardutil/mciipm.py', 'encoding_check', {'mti': 'bytes'}, 'str'),
+    # loops: a `while` makes the translation take a fuel argument (see Rt.whileO)
+    ('cardutil/iso8583.py', '_pds_to_dict', {'field_data': 'str', 'return_values': ('dict', 'str', 'str')},
+     ('dict', 'str', 'str')),
+    ('cardutil/iso8583.py', '_icc_to_dict', {'field_data': 'bytes', 'return_values': ('dict', 'str', 'str')},
+     ('dict', 'str', 'str')),
+    ('cardutil/iso8583.py', '_pds_to_de', {'dict_values': ('dict', 'str', 'str'), 'outputs': ('list', 'str')},
+     ('list', 'str')),
+    # methods: `self` becomes explicit state (the listed fields, then the bytes written to the wrapped file object);
+    # the translated method returns the new state
+    ('cardutil/mciipm.py', 'Block1014.write', {'bytes_to_write': 'bytes'}, None),
+    ('cardutil/mciipm.py', 'Block1014.finalise', {}, None),
+    ('cardutil/mciipm.py', 'Unblock1014.read', {'bytes_to_read': 'int'}, 'bytes'),
 ]
+
+# per class: the fields a method may use, and the wrapped file object as a `sink` (its write(e) appends to self_out) or a
+# `source` (its read(n) takes the next n bytes of self_in)
+SELF_STATE = {'Block1014': {'fields': [('remaining_chars', 'int')], 'sink': 'file_obj'},
+              'Unblock1014': {'fields': [('buffer', 'bytes')], 'source': 'file_obj'}}
 
 EXC = {'AssertionError': 'assertionError', 'ValueError': 'valueError', 'IndexError': 'indexError',
        'TypeError': 'typeError', 'KeyError': 'keyError'}
@@ -44,7 +61,7 @@ NUMERIC_TABLES = {'latin1': 'Gen.latin1Numeric', 'latin_1': 'Gen.latin1Numeric',
 def lean_type(t):
     if t == 'str':
         return 'Text'
-    if t == 'bytes':
+    if t in ('bytes', 'asciibytes'):
         return 'Bytes'
     if t in ('char', 'byte'):
         return 'Nat'
@@ -58,17 +75,23 @@ def lean_type(t):
         return f'(List {lean_type(t[1])})'
     if isinstance(t, tuple) and t[0] == 'tuple':
         return '(' + ' × '.join(lean_type(x) for x in t[1:]) + ')'
+    if isinstance(t, tuple) and t[0] == 'dict' and t[1] == 'str':
+        return f'(Rt.SDict {lean_type(t[2])})'
     raise Untranslatable(f'type {t!r}')
 
 
 def is_seq(t):
-    return t in ('str', 'bytes') or (isinstance(t, tuple) and t[0] == 'list')
+    return t in ('str', 'bytes', 'asciibytes') or (isinstance(t, tuple) and t[0] == 'list')
+
+
+def is_dict(t):
+    return isinstance(t, tuple) and t[0] == 'dict'
 
 
 def elem_type(t):
     if t == 'str':
         return 'char'
-    if t == 'bytes':
+    if t in ('bytes', 'asciibytes'):
         return 'byte'
     if isinstance(t, tuple) and t[0] == 'list':
         return t[1]
@@ -89,11 +112,13 @@ class NeedMonad(Exception):
 
 
 class Translator:
-    def __init__(self, module_ast, known):
+    def __init__(self, module_ast, known, hints=None):
         self.mod = module_ast
+        self.hints = hints or {}    # types of locals the source does not let us infer (e.g. `x = {}`)
         self.known = known          # name -> Fn (already translated functions callable from here)
         self.monadic = False
         self.fresh = 0
+        self.self_state = None      # for a method: the AST of the state tuple it implicitly returns
         self.pending = []           # hoisted partial sub-expressions: (var, code)
 
     # ---- helpers -------------------------------------------------------------------------
@@ -125,6 +150,8 @@ class Translator:
             return f'[{code}]'
         if typ == 'byte' and want == 'bytes':
             return f'[{code}]'
+        if typ == 'asciibytes' and want == 'bytes':
+            return code
         raise Untranslatable(f'cannot use {typ} as {want}')
 
     def const_int(self, node):
@@ -161,6 +188,30 @@ class Translator:
         if isinstance(node, ast.Attribute) and isinstance(node.value, ast.Name):
             v = self.class_const(node.value.id, node.attr)
             return self.expr(ast.Constant(v), env)
+        if isinstance(node, ast.IfExp):
+            c = self.cond(node.test, env)
+            a, ta = self.expr(node.body, env)
+            b, tb = self.expr(node.orelse, env)
+            if ta != tb:
+                raise Untranslatable('conditional expression with two types')
+            return f'(if {c} then {a} else {b})', ta
+        if isinstance(node, ast.Tuple) and len(node.elts) == 2:
+            a, ta = self.expr(node.elts[0], env)
+            b, tb = self.expr(node.elts[1], env)
+            return f'({a}, {b})', ('tuple', ta, tb)
+        if isinstance(node, ast.Dict):
+            if not node.keys:
+                raise Untranslatable('empty dict literal outside an assignment with a type hint')
+            items = []
+            vt = None
+            for k, v in zip(node.keys, node.values):
+                kc, kt = self.expr(k, env)
+                vc, t = self.expr(v, env)
+                if kt != 'str' or (vt is not None and t != vt):
+                    raise Untranslatable('dict literal that is not str -> one type')
+                vt = t
+                items.append(f'({kc}, {vc})')
+            return '[' + ', '.join(items) + ']', ('dict', 'str', vt)
         if isinstance(node, ast.BinOp):
             return self.binop(node, env)
         if isinstance(node, ast.UnaryOp) and isinstance(node.op, ast.USub):
@@ -197,6 +248,14 @@ class Translator:
                         parts.append(f'(Rt.strOfInt {c})')
                     else:
                         parts.append(self.coerce(c, t, 'str'))
+                elif isinstance(v, ast.FormattedValue) and v.conversion == -1 and isinstance(v.format_spec, ast.JoinedStr) \
+                        and len(v.format_spec.values) == 1 and isinstance(v.format_spec.values[0], ast.Constant) \
+                        and isinstance(v.format_spec.values[0].value, str) \
+                        and v.format_spec.values[0].value[:1] == '0' and v.format_spec.values[0].value.isdigit():
+                    c, t = self.expr(v.value, env)
+                    if t != 'int':
+                        raise Untranslatable('zero-padded width on a non-int')
+                    parts.append(f'(Rt.fmtIntW {int(v.format_spec.values[0].value)} {c})')
                 else:
                     raise Untranslatable('format specification in an f-string')
             return '(' + ' ++ '.join(parts) + ')' if parts else '[]', 'str'
@@ -244,6 +303,14 @@ class Translator:
                 raise Untranslatable('chained comparison')
             lc, lt = self.expr(node.left, env)
             rc, rt = self.expr(node.comparators[0], env)
+            if isinstance(node.ops[0], (ast.In, ast.NotIn)):
+                if not (isinstance(rt, tuple) and rt[0] == 'list'):
+                    raise Untranslatable('`in` on something that is not a list')
+                lc = self.coerce(lc, lt, rt[1])
+                inner = f'(List.contains {rc} {lc})'
+                return inner if isinstance(node.ops[0], ast.In) else f'(!{inner})'
+            if 'asciibytes' in (lt, rt) and {lt, rt} <= {'asciibytes', 'bytes'}:
+                lt = rt = 'bytes'
             if lt != rt:
                 for want in ('str', 'bytes'):
                     if {lt, rt} == {want, 'char' if want == 'str' else 'byte'}:
@@ -265,10 +332,24 @@ class Translator:
             return c
         if is_seq(t):
             return f'(!({c}).isEmpty)'
+        if t == 'int':
+            return f'({c} != (0 : Int))'
         raise Untranslatable(f'truthiness of {t}')
 
     def subscript(self, node, env):
+        # struct.unpack(">B", raw)[0]
+        v = node.value
+        if isinstance(v, ast.Call) and isinstance(v.func, ast.Attribute) and isinstance(v.func.value, ast.Name) \
+                and v.func.value.id == 'struct' and v.func.attr == 'unpack' and len(v.args) == 2 \
+                and isinstance(v.args[0], ast.Constant) and v.args[0].value == '>B' and self.const_int(node.slice) == 0:
+            rc, rt = self.expr(v.args[1], env)
+            if rt not in ('bytes', 'asciibytes'):
+                raise Untranslatable('struct.unpack of a non-bytes value')
+            return self.hoist(f'(Rt.unpackB {rc})', 'int')
         vc, vt = self.expr(node.value, env)
+        if is_dict(vt):
+            kc, kt = self.expr(node.slice, env)
+            return self.hoist(f'(Rt.dictGet {vc} {self.coerce(kc, kt, "str")})', vt[2])
         if not is_seq(vt):
             raise Untranslatable(f'subscript of {vt}')
         sl = node.slice
@@ -343,6 +424,11 @@ class Translator:
                 if not (isinstance(args[1].args[0], ast.List) and args[1].args[0].elts):
                     raise Untranslatable('cycle() of something that is not a non-empty list literal')
                 return f'(Rt.zipCycle {a} {b})', ('list', ('tuple', ta[1], tb[1]))
+            if name == 'sorted' and len(args) == 1:
+                c, t = self.expr(args[0], env)
+                if t != ('list', 'str'):
+                    raise Untranslatable(f'sorted() of {t}')
+                return f'(Rt.sortedStr {c})', t
             if name in self.known:
                 fn = self.known[name]
                 if len(args) > len(fn.params):
@@ -371,9 +457,22 @@ class Translator:
                 if t != 'bytes':
                     raise Untranslatable('decode of a non-bytes value')
                 return f'(Rt.allIn {NUMERIC_TABLES[f.value.args[0].value]} {c})', 'bool'
+            if isinstance(f.value, ast.Name) and f.value.id == 'binascii' and f.attr in ('b2a_hex', 'hexlify') \
+                    and len(node.args) == 1:
+                c, t = self.expr(node.args[0], env)
+                if t not in ('bytes', 'asciibytes'):
+                    raise Untranslatable('hexlify of a non-bytes value')
+                return f'(Rt.hexlify {c})', 'asciibytes'
             c, t = self.expr(f.value, env)
             if f.attr == 'isdigit' and not node.args and t == 'char':
                 return f'(Gen.strDigits.contains {c})', 'bool'
+            if f.attr == 'decode' and not node.args and t == 'asciibytes':
+                return c, 'str'          # ASCII bytes (hex digits) decode to the same code points
+            if f.attr == 'upper' and not node.args and t == 'asciibytes':
+                return f'(Rt.upperAscii {c})', 'asciibytes'
+            if f.attr == 'startswith' and len(node.args) == 1 and t == 'str':
+                a, ta = self.expr(node.args[0], env)
+                return f'(Rt.startsWith {c} {self.coerce(a, ta, "str")})', 'bool'
             raise Untranslatable(f'method {f.attr} on {t}')
         raise Untranslatable('call')
 
@@ -382,6 +481,8 @@ class Translator:
             raise Untranslatable('comprehension with several generators')
         g = node.generators[0]
         sc, st = self.expr(g.iter, env)
+        if is_dict(st):
+            sc, st = f'(Rt.dictKeys {sc})', ('list', 'str')
         et = elem_type(st)
         inner = dict(env)
         if isinstance(g.target, ast.Name):
@@ -419,7 +520,7 @@ class Translator:
     # ---- statements ----------------------------------------------------------------------
     def terminates(self, stmts):
         for s in stmts:
-            if isinstance(s, (ast.Return, ast.Raise)):
+            if isinstance(s, (ast.Return, ast.Raise, ast.Break, ast.Continue)):
                 return True
             if isinstance(s, ast.If) and s.orelse and self.terminates(s.body) and self.terminates(s.orelse):
                 return True
@@ -434,29 +535,146 @@ class Translator:
             code = f'Outcome.bind {c} (fun {v} =>\n    {code})'
         return code
 
-    def stmts(self, stmts, env, ret):
+    @staticmethod
+    def assigned(stmts):
+        """names (re)bound by these statements, nested ifs included"""
+        out = []
+
+        def visit(st):
+            if isinstance(st, ast.Assign):
+                if isinstance(st.value, ast.Call) and isinstance(st.value.func, ast.Name) \
+                        and st.value.func.id == '__source_read__':
+                    out.append('self_in')
+                for t in st.targets:
+                    if isinstance(t, ast.Tuple):
+                        out.extend(e.id for e in t.elts if isinstance(e, ast.Name))
+                    if isinstance(t, ast.Name):
+                        out.append(t.id)
+                    elif isinstance(t, ast.Subscript) and isinstance(t.value, ast.Name):
+                        out.append(t.value.id)
+            elif isinstance(st, ast.AugAssign) and isinstance(st.target, ast.Name):
+                out.append(st.target.id)
+            elif isinstance(st, ast.Expr) and isinstance(st.value, ast.Call) and isinstance(st.value.func, ast.Attribute) \
+                    and st.value.func.attr == 'append' and isinstance(st.value.func.value, ast.Name):
+                out.append(st.value.func.value.id)
+            elif isinstance(st, ast.If):
+                for x in st.body + st.orelse:
+                    visit(x)
+            elif isinstance(st, (ast.While, ast.For)):
+                for x in st.body:
+                    visit(x)
+        for st in stmts:
+            visit(st)
+        return out
+
+    def state_of(self, body, env):
+        names = [n for n in dict.fromkeys(self.assigned(body)) if n in env]
+        if not names:
+            raise Untranslatable('loop that changes no variable')
+        types = [env[n][1] for n in names]
+        if len(names) == 1:
+            return names, types, lean_type(types[0]), names[0], [(names[0], 'st')]
+        tup = '(' + ' × '.join(lean_type(t) for t in types) + ')'
+        value = '(' + ', '.join(names) + ')'
+        proj = []
+        for i, n in enumerate(names):
+            path = 'st' + '.2' * i + ('.1' if i < len(names) - 1 else '')
+            proj.append((n, path))
+        return names, types, tup, value, proj
+
+    def loop_end(self, loop, keep_going=True):
+        kind, value = loop
+        if kind == 'while':
+            return f'.ok ({"true" if keep_going else "false"}, {value})'
+        return f'.ok {value}'
+
+    def stmts(self, stmts, env, ret, loop=None):
         if not stmts:
+            if loop:
+                return self.loop_end(loop)
+            if self.self_state is not None:
+                return self.stmts([ast.Return(value=self.self_state)], env, ret, None)
             if ret != 'none':
                 raise Untranslatable('function can end without returning a value')
             return '.ok ()' if self.monadic else '()'
         s, rest = stmts[0], stmts[1:]
         if isinstance(s, ast.Expr) and isinstance(s.value, ast.Constant) and isinstance(s.value.value, str):
-            return self.stmts(rest, env, ret)           # docstring
+            return self.stmts(rest, env, ret, loop)           # docstring
         if isinstance(s, ast.Expr) and isinstance(s.value, ast.Call) and isinstance(s.value.func, ast.Attribute) \
                 and isinstance(s.value.func.value, ast.Name) and s.value.func.value.id == 'LOGGER':
-            return self.stmts(rest, env, ret)           # logging has no effect on the result
+            return self.stmts(rest, env, ret, loop)           # logging has no effect on the result
+        if isinstance(s, ast.Expr) and isinstance(s.value, ast.Call) and isinstance(s.value.func, ast.Attribute) \
+                and s.value.func.attr == 'append' and isinstance(s.value.func.value, ast.Name) and len(s.value.args) == 1:
+            name = s.value.func.value.id
+            new = ast.Assign(targets=[ast.Name(name)], value=ast.BinOp(ast.Name(name), ast.Add(), ast.List([s.value.args[0]])))
+            return self.stmts([new] + rest, env, ret, loop)
+        if isinstance(s, ast.AugAssign) and isinstance(s.target, ast.Name):
+            new = ast.Assign(targets=[ast.Name(s.target.id)], value=ast.BinOp(ast.Name(s.target.id), s.op, s.value))
+            return self.stmts([new] + rest, env, ret, loop)
+        if isinstance(s, ast.Assign) and len(s.targets) == 1 and isinstance(s.targets[0], ast.Subscript) \
+                and isinstance(s.targets[0].value, ast.Name):
+            dname = s.targets[0].value.id
+
+            def go():
+                dc, dt = self.expr(ast.Name(dname), env)
+                if not is_dict(dt):
+                    raise Untranslatable('item assignment on a non-dict')
+                kc, kt = self.expr(s.targets[0].slice, env)
+                vc, vt = self.expr(s.value, env)
+                code = f'(Rt.dictSet {dc} {self.coerce(kc, kt, "str")} {self.coerce(vc, vt, dt[2])})'
+                return f'let {dname} : {lean_type(dt)} := {code};\n  ' + self.stmts(rest, env, ret, loop)
+            return self.wrap(go)
+        if isinstance(s, ast.Assign) and len(s.targets) == 1 and isinstance(s.targets[0], ast.Tuple) \
+                and isinstance(s.value, ast.Tuple) and len(s.targets[0].elts) == len(s.value.elts) \
+                and all(isinstance(t, ast.Name) for t in s.targets[0].elts):
+            # a, b = x, y : evaluate the right-hand sides first, then bind
+            tmps = [f'tup{i}_{self.tmp()}' for i in range(len(s.value.elts))]
+            pre = [ast.Assign(targets=[ast.Name(id=t, ctx=ast.Store())], value=v) for t, v in zip(tmps, s.value.elts)]
+            post = [ast.Assign(targets=[ast.Name(id=t.id, ctx=ast.Store())], value=ast.Name(id=tm, ctx=ast.Load()))
+                    for t, tm in zip(s.targets[0].elts, tmps)]
+            return self.stmts(pre + post + rest, env, ret, loop)
+        if isinstance(s, ast.Assign) and len(s.targets) == 1 and isinstance(s.targets[0], ast.Name) \
+                and isinstance(s.value, ast.Call) and isinstance(s.value.func, ast.Name) \
+                and s.value.func.id == '__source_read__':
+            name = s.targets[0].id
+
+            def go():
+                nc, nt = self.expr(s.value.args[0], env)
+                if nt != 'int' or self.const_int(s.value.args[0]) is None or self.const_int(s.value.args[0]) <= 0:
+                    raise Untranslatable('read() of the wrapped file with a size that is not a positive literal')
+                env2 = dict(env)
+                env2[name] = (name, 'bytes')
+                env2['self_in'] = ('self_in', 'bytes')
+                return (f'let {name} : Bytes := (Rt.slice self_in none (some {nc}));\n  '
+                        f'let self_in : Bytes := (Rt.slice self_in (some {nc}) none);\n  '
+                        + self.stmts(rest, env2, ret, loop))
+            return self.wrap(go)
         if isinstance(s, ast.Assign) and len(s.targets) == 1 and isinstance(s.targets[0], ast.Name):
             name = s.targets[0].id
 
             def go():
-                c, t = self.expr(s.value, env)
+                if isinstance(s.value, (ast.Dict, ast.List)) and not (s.value.keys if isinstance(s.value, ast.Dict) else s.value.elts):
+                    if name not in self.hints:
+                        raise Untranslatable(f'empty literal assigned to {name} without a type hint')
+                    c, t = '[]', self.hints[name]
+                else:
+                    c, t = self.expr(s.value, env)
+                    if name in self.hints and is_dict(self.hints[name]) and is_dict(t):
+                        t = self.hints[name]
                 env2 = dict(env)
                 env2[name] = (name, t)
-                return f'let {name} : {lean_type(t)} := {c};\n  ' + self.stmts(rest, env2, ret)
+                return f'let {name} : {lean_type(t)} := {c};\n  ' + self.stmts(rest, env2, ret, loop)
             return self.wrap(go)
         if isinstance(s, ast.Return):
+            if loop:
+                raise Untranslatable('return inside a loop')
+
             def go():
-                if s.value is None:
+                if s.value is not None and self.self_state is not None and getattr(self, 'self_value', False):
+                    c, t = self.expr(ast.Tuple(elts=[s.value, self.self_state], ctx=ast.Load()), env)
+                elif s.value is None and self.self_state is not None:
+                    c, t = self.expr(self.self_state, env)
+                elif s.value is None:
                     c, t = '()', 'none'
                 else:
                     c, t = self.expr(s.value, env)
@@ -471,42 +689,156 @@ class Translator:
             if exc not in EXC:
                 raise Untranslatable(f'raise of {exc}')
             return f'.escape .{EXC[exc]}'
+        if isinstance(s, ast.Break):
+            if not loop or loop[0] != 'while':
+                raise Untranslatable('break outside a while loop')
+            return self.loop_end(loop, keep_going=False)
+        if isinstance(s, ast.Continue):
+            if not loop:
+                raise Untranslatable('continue outside a loop')
+            return self.loop_end(loop)
         if isinstance(s, ast.If):
             def go():
                 c = self.cond(s.test, env)
-                then = self.stmts(s.body if self.terminates(s.body) else s.body + rest, env, ret)
-                other = self.stmts(s.orelse + rest if not self.terminates(s.orelse) else s.orelse, env, ret)
+                then = self.stmts(s.body if self.terminates(s.body) else s.body + rest, env, ret, loop)
+                other = self.stmts(s.orelse + rest if not self.terminates(s.orelse) else s.orelse, env, ret, loop)
                 return f'if {c} then\n    ({then})\n  else\n    ({other})'
+            return self.wrap(go)
+        if isinstance(s, (ast.While, ast.For)) and not s.orelse:
+            if not self.monadic:
+                raise NeedMonad()
+            if loop:
+                raise Untranslatable('nested loop')
+            names, types, tup, value, proj = self.state_of(s.body, env)
+            opener = ''.join(f'let {n} := {path}; ' for n, path in proj)
+            if isinstance(s, ast.While):
+                self.uses_fuel = True
+                saved, self.pending = self.pending, []
+                test = self.cond(s.test, env)
+                if self.pending:
+                    raise Untranslatable('partial operation in a loop condition')
+                self.pending = saved
+                body = self.stmts(s.body, env, ret, loop=('while', value))
+                after = self.stmts(rest, env, ret, None)
+                return (f'Outcome.bind (Rt.whileO fuel (fun (st : {tup}) => {opener}{test})\n'
+                        f'    (fun (st : {tup}) => {opener}\n    {body})\n    {value}) (fun st => {opener}\n  {after})')
+
+            def go():
+                ic, it = self.expr(s.iter, env)
+                if is_dict(it):
+                    ic, it = f'(Rt.dictKeys {ic})', ('list', 'str')
+                et = elem_type(it)
+                if not isinstance(s.target, ast.Name):
+                    raise Untranslatable('loop target')
+                env2 = dict(env)
+                env2[s.target.id] = (s.target.id, et)
+                body = self.stmts(s.body, env2, ret, loop=('for', value))
+                after = self.stmts(rest, env, ret, None)
+                return (f'Outcome.bind (Rt.forO (fun (st : {tup}) ({s.target.id} : {lean_type(et)}) => {opener}\n    {body})\n'
+                        f'    {ic} {value}) (fun st => {opener}\n  {after})')
             return self.wrap(go)
         raise Untranslatable(f'statement {type(s).__name__}')
 
 
-def translate_function(mod_ast, fdef, ptypes, ret, known):
+class SelfRewriter(ast.NodeTransformer):
+    """turns a method body into a plain function body: `self.<field>` -> variable `self_<field>`,
+    `self.<sink>.write(e)` -> `self_out = self_out + e`, `self.<CONST>` -> its literal"""
+
+    def __init__(self, tr, cls, spec):
+        self.tr, self.cls, self.spec = tr, cls, spec
+        self.fields = [f for f, _ in spec['fields']]
+
+    def visit_Attribute(self, node):
+        if isinstance(node.value, ast.Name) and node.value.id == 'self':
+            if node.attr in self.fields:
+                return ast.copy_location(ast.Name(id=f'self_{node.attr}', ctx=node.ctx), node)
+            return ast.copy_location(ast.Constant(self.tr.class_const(self.cls, node.attr)), node)
+        return self.generic_visit(node)
+
+    def visit_Call(self, node):
+        f = node.func
+        if isinstance(f, ast.Attribute) and f.attr == 'read' and isinstance(f.value, ast.Attribute) \
+                and isinstance(f.value.value, ast.Name) and f.value.value.id == 'self' \
+                and f.value.attr == self.spec.get('source') and len(node.args) == 1:
+            return ast.copy_location(ast.Call(func=ast.Name(id='__source_read__', ctx=ast.Load()),
+                                              args=[self.visit(node.args[0])], keywords=[]), node)
+        return self.generic_visit(node)
+
+    def visit_Expr(self, node):
+        c = node.value
+        if 'sink' not in self.spec:
+            return self.generic_visit(node)
+        if isinstance(c, ast.Call) and isinstance(c.func, ast.Attribute) and c.func.attr == 'write' \
+                and isinstance(c.func.value, ast.Attribute) and isinstance(c.func.value.value, ast.Name) \
+                and c.func.value.value.id == 'self' and c.func.value.attr == self.spec['sink'] and len(c.args) == 1:
+            arg = self.visit(c.args[0])
+            return ast.Assign(targets=[ast.Name(id='self_out', ctx=ast.Store())],
+                              value=ast.BinOp(ast.Name(id='self_out', ctx=ast.Load()), ast.Add(), arg))
+        return self.generic_visit(node)
+
+
+def translate_function(mod_ast, fdef, ptypes, ret, known, cls=None):
     params, defaults = [], {}
     args = fdef.args
     if args.vararg or args.kwarg or args.kwonlyargs or args.posonlyargs:
         raise Untranslatable('argument kinds')
-    for a in args.args:
+    arglist = list(args.args)
+    lean_name = fdef.name
+    state_ast = None
+    value_type = None
+    body = fdef.body
+    if cls is not None:
+        if not arglist or arglist[0].arg != 'self' or cls not in SELF_STATE:
+            raise Untranslatable('method without a described self state')
+        spec = SELF_STATE[cls]
+        arglist = arglist[1:]
+        for f, t in spec['fields']:
+            params.append((f'self_{f}', t))
+        names = [f'self_{f}' for f, _ in spec['fields']]
+        if 'sink' in spec:
+            params.append(('self_out', 'bytes'))
+            names.append('self_out')
+        if 'source' in spec:
+            params.append(('self_in', 'bytes'))
+            names.append('self_in')
+        lean_name = f'{cls}_{fdef.name}'
+        if len(names) != 2:
+            raise Untranslatable('self state with other than two components')
+        state_ast = ast.Tuple(elts=[ast.Name(id=n, ctx=ast.Load()) for n in names], ctx=ast.Load())
+        state_type = ('tuple',) + tuple(t for _, t in spec['fields']) + ('bytes',)
+        value_type = ret
+        ret = state_type if value_type in (None, 'none') else ('tuple', value_type, state_type)
+    for a in arglist:
         if a.arg not in ptypes:
             raise Untranslatable(f'no type for parameter {a.arg}')
         params.append((a.arg, ptypes[a.arg]))
+    hints = {k: v for k, v in ptypes.items() if k not in [a.arg for a in arglist]}
     for a, d in zip(args.args[len(args.args) - len(args.defaults):], args.defaults):
         if not isinstance(d, ast.Constant):
             raise Untranslatable('non-literal default')
         defaults[a.arg] = d.value
     env = {n: (n, t) for n, t in params}
     for monadic in (False, True):
-        tr = Translator(mod_ast, known)
+        tr = Translator(mod_ast, known, hints)
         tr.monadic = monadic
+        tr.uses_fuel = False
+        tr.self_state = state_ast
+        tr.self_value = cls is not None and value_type not in (None, 'none')
+        if cls is not None:
+            import copy
+            rw = SelfRewriter(tr, cls, SELF_STATE[cls])
+            body = [ast.fix_missing_locations(rw.visit(copy.deepcopy(st))) for st in fdef.body]
         try:
-            body = tr.stmts(fdef.body, env, ret)
+            code = tr.stmts(body, env, ret)
         except NeedMonad:
             continue
         sig = ' '.join(f'({n} : {lean_type(t)})' for n, t in params)
+        if tr.uses_fuel:
+            sig = '(fuel : Nat) ' + sig
         rt = lean_type(ret)
         rtype = f'Outcome {rt}' if monadic else rt
-        text = f'def {fdef.name} {sig} : {rtype} :=\n  {body}\n'
-        return text, Fn(fdef.name, params, ret, monadic, defaults)
+        text = f'def {lean_name} {sig} : {rtype} :=\n  {code}\n'
+        return text, Fn(lean_name, params, ret, monadic, defaults)
     raise Untranslatable('could not translate')
 
 
@@ -523,11 +855,20 @@ def translate_all(repo=REPO):
             if path not in asts:
                 asts[path] = ast.parse(open(os.path.join(repo, path)).read())
             mod = asts[path]
-            fdefs = [n for n in mod.body if isinstance(n, ast.FunctionDef) and n.name == name]
+            cls = None
+            scope = mod.body
+            fname = name
+            if '.' in name:
+                cls, fname = name.split('.')
+                cdefs = [n for n in mod.body if isinstance(n, ast.ClassDef) and n.name == cls]
+                if len(cdefs) != 1:
+                    raise Untranslatable('class not found')
+                scope = cdefs[0].body
+            fdefs = [n for n in scope if isinstance(n, ast.FunctionDef) and n.name == fname]
             if len(fdefs) != 1:
-                raise Untranslatable('function not found (or defined more than once) at module level')
+                raise Untranslatable('function not found (or defined more than once)')
             known = known_by_module.setdefault(path, {})
-            text, fn = translate_function(mod, fdefs[0], ptypes, ret, known)
+            text, fn = translate_function(mod, fdefs[0], ptypes, ret, known, cls)
             known[name] = fn
             out.append(f'/-- `{path}: {name}` -/')
             out.append(text)
